@@ -10,7 +10,7 @@ import socket
 from vt import compat
 compat.install()
 from vt.vloop import VLoop
-from vt.sched import Env, drive
+from vt.sched import Env, drive, ChoiceSet
 from vt.explore import Outcome, explore, Chooser, h64
 
 PROPERTY = 'C12'
@@ -86,8 +86,39 @@ def build(params, chooser):
                 infos.append(AddressInfo('::1', socket.AF_INET6, None, None))
             return ResolveResult(infos)
 
+    import wpull.network.pool as poolmod
+    real = getattr(poolmod.HostPool, '_verif_real', poolmod.HostPool)
+    counter = [0]
+
+    class VHostPool(real):
+        _verif_real = real
+
+        def __init__(self, *a, **kw):
+            super().__init__(*a, **kw)
+            # own the id()-hash order of set.pop(): make it an explorer choice
+            self.ready = ChoiceSet(chooser, lambda c: c._verif_seq, 'ready.pop')
+            factory = self._connection_factory
+
+            def numbered():
+                c = factory()
+                counter[0] += 1
+                c._verif_seq = counter[0]
+                return c
+            self._connection_factory = numbered
+    poolmod.HostPool = VHostPool
     w.pool = ConnectionPool(max_host_count=params['M'], resolver=FakeResolver(),
                             connection_factory=FakeConnection)
+    seq = [0]
+    w.pool._release_tasks = ChoiceSet(chooser, lambda t: t._verif_seq, 'release.pop')
+    orig_nwr = w.pool.no_wait_release
+
+    def no_wait_release(connection):
+        before = set(set.__iter__(w.pool._release_tasks))
+        orig_nwr(connection)
+        for t in set(set.__iter__(w.pool._release_tasks)) - before:
+            seq[0] += 1
+            t._verif_seq = seq[0]
+    w.pool.no_wait_release = no_wait_release
     w.FakeConnection = FakeConnection
     return w
 
